@@ -201,3 +201,321 @@ PROPS = {
     "C20": dict(gen=gen_C20, configs=["dev", "rel"], judge=default_judge,
                 assumptions=["ELF classification and framebuffer type bytes are observed through a minimal tag built by the harness"]),
 }
+
+
+# ==========================================================================
+# helpers for structured regions
+# ==========================================================================
+import mb2enc as E  # noqa: E402
+
+
+def project(lines, prefixes):
+    return [l for l in lines if any(l.startswith(p + " ") or l == p for p in prefixes)]
+
+
+def judge_projection(prefixes):
+    def j(case, ml, il):
+        if project(ml, prefixes) == project(il, prefixes):
+            return ("ok", "")
+        return default_judge(case, ml, il)
+    return j
+
+
+def count(d, k):
+    d[k] = d.get(k, 0) + 1
+
+
+# ==========================================================================
+# C02
+# ==========================================================================
+def gen_C02(rng, tier):
+    cases = ["mbinull"]
+    dist = {"total_mod8": {}, "last8": {}, "expected": {}}
+    last8_variants = {
+        "end": E.u32(0) + E.u32(8), "type1": E.u32(1) + E.u32(8), "size9": E.u32(0) + E.u32(9),
+        "size0": E.u32(0) + E.u32(0), "both": E.u32(7) + E.u32(16), "ff": b"\xff" * 8,
+    }
+
+    def region(t, last8, reserved, extra=0):
+        n = max(8, t) + extra
+        body = bytearray(E.u32(t) + E.u32(reserved) + marker(max(0, n - 8), start=t))
+        if t >= 16 and t - 16 >= 8 and t % 8 == 0:
+            # one custom tag filling [8, t-8)
+            body[8:16] = E.u32(99) + E.u32(t - 16)
+        if 16 <= t <= n:
+            body[t - 8:t] = last8
+        return bytes(body[:n])
+
+    for t in range(0, 73):
+        for name, l8 in last8_variants.items():
+            for reserved in (0, 0xFFFFFFFF):
+                cases.append("mbiwalk " + hx(region(t, l8, reserved)))
+                count(dist["total_mod8"], str(t % 8))
+                count(dist["last8"], name)
+    # reserved word looking like an end tag (total = 8: the header itself is "the last 8 bytes")
+    for t in (0, 8):
+        cases.append("mbiwalk " + hx(E.u32(t) + E.u32(8)))
+    sizes = [80, 88, 96, 100, 104, 256, 1000, 1024, 4096, 4100, 65536]
+    if tier == "thorough":
+        sizes += [1 << 20, (1 << 20) - 8, (1 << 20) + 4, 300000, 123456 * 8]
+        sizes += [rng.randrange(72, 1 << 18) for _ in range(200)]
+    else:
+        sizes += [rng.randrange(72, 1 << 14) for _ in range(40)]
+    for t in sizes:
+        for name in ("end", "type1", "size9"):
+            cases.append("mbiwalk " + hx(region(t, last8_variants[name], 0)))
+            count(dist["total_mod8"], str(t % 8))
+            count(dist["last8"], name)
+    return cases, dict(
+        rule="mbiwalk: all total sizes 0..72 x six contents of the last 8 bytes x reserved word {0, 0xFFFFFFFF} (exhaustive), "
+             "the memory made valid being max(8,total) bytes; larger sizes (fixed list + seeded random, up to 1 MiB in thorough); "
+             "null pointer. Only the `load` line (result, start/end/total) is compared for this property. "
+             "distinct_nontrivial = distinct (domain, model transcript) pairs.",
+        dist=dist, exhaustive=True)
+
+
+# ==========================================================================
+# C03
+# ==========================================================================
+def gen_C03(rng, tier):
+    cases = []
+    dist = {"regions_exhaustive": 0, "regions_random": 0, "histories": 0, "stuck": 0, "complete": 0}
+    types = [1, 3, 99, 3, 21, 0, 3]
+
+    def build(sizes, R, endtag=True):
+        """tag region of R bytes with tags of the given declared sizes laid out by the spec walk, then the end tag"""
+        body = bytearray(marker(R, start=len(sizes) * 3 + R))
+        off = 0
+        for k, s in enumerate(sizes):
+            if off + 8 > R:
+                break
+            body[off:off + 8] = E.u32(types[(k + s) % len(types)]) + E.u32(s)
+            off += (s + 7) // 8 * 8 if s >= 8 else 8
+        tail = E.end_tag() if endtag else E.u32(0) + E.u32(12)
+        return E.u32(8 + R + 8) + E.u32(0) + bytes(body) + tail
+
+    def enum(R, off, acc, out):
+        if off == R:
+            out.append(list(acc))
+            return
+        rem = R - off
+        for s in list(range(0, rem + 10)):
+            if s < 8 or (s + 7) // 8 * 8 > rem + 8:
+                out.append(acc + [s])      # stuck here (or swallows the end tag exactly when == rem+8)
+            else:
+                nxt = off + (s + 7) // 8 * 8
+                if nxt > R:
+                    out.append(acc + [s])
+                else:
+                    enum(R, nxt, acc + [s], out)
+
+    maxR = 32 if tier == "thorough" else 24
+    for R in range(0, maxR + 1, 8):
+        seqs = []
+        enum(R, 0, [], seqs)
+        for sq in seqs:
+            cases.append("mbiwalk " + hx(build(sq, R)))
+            dist["regions_exhaustive"] += 1
+    # random longer regions, mostly well-formed
+    n_rand = 3000 if tier == "thorough" else 300
+    pool = []
+    for _ in range(n_rand):
+        tags = []
+        for _ in range(rng.randrange(0, 9)):
+            typ = rng.choice([1, 2, 3, 3, 4, 6, 9, 16, 21, 22, 99, 0xFFFFFFFF])
+            plen = rng.choice([0, 1, 3, 4, 7, 8, 9, 12, 16, 23, rng.randrange(0, 64)])
+            tags.append(E.tag(typ, marker(plen, start=plen + typ % 50), fill=rng.choice([0, 0xAA])))
+        b = bytearray(E.mbi(tags))
+        if rng.random() < 0.3 and len(b) > 24:
+            # corrupt one size field somewhere on the walk
+            off = 8
+            offs = []
+            while off + 8 <= len(b) - 8:
+                offs.append(off)
+                s = int.from_bytes(b[off + 4:off + 8], "little")
+                off += max(8, (s + 7) // 8 * 8)
+            o = rng.choice(offs)
+            b[o + 4:o + 8] = E.u32(rng.choice([0, 1, 7, 9, 12, len(b), len(b) - o, len(b) - o - 8, len(b) - o + 1, 0xFFFFFFFF]))
+            dist["stuck"] += 1
+        else:
+            dist["complete"] += 1
+        pool.append(bytes(b))
+        cases.append("mbiwalk " + hx(b))
+        dist["regions_random"] += 1
+    # iterator histories
+    n_hist = 1500 if tier == "thorough" else 200
+    for _ in range(n_hist):
+        b = rng.choice(pool)
+        ops = ["[ 0 ]"]
+        n_it = 1
+        for _ in range(rng.randrange(1, 25)):
+            r = rng.random()
+            if r < 0.1:
+                ops.append("[ 0 ]")
+                n_it += 1
+            elif r < 0.25:
+                ops.append("[ 2 %d ]" % rng.randrange(n_it))
+                n_it += 1
+            else:
+                ops.append("[ 1 %d ]" % rng.randrange(n_it))
+        cases.append("iters %s [ %s ]" % (hx(b), " ".join(ops)))
+        dist["histories"] += 1
+    return cases, dict(
+        rule="mbiwalk: every sequence of declared tag sizes (0..remaining+9 at each position, i.e. incl. sizes below 8, "
+             "non-multiples of 8, tags ending at/one byte past/8 bytes past the end) over tag regions of 0..%d bytes "
+             "(exhaustive), followed by an end tag; seeded random regions of 0..8 tags (30%% with one corrupted size on the walk); "
+             "iters: random new/next/clone histories over those regions. Compared: every yielded item (offset, extent, type, "
+             "size, payload bytes), how the walk ends, the module iterator. distinct_nontrivial = distinct (domain, model transcript) pairs."
+             % maxR,
+        dist=dist, exhaustive=True)
+
+
+# ==========================================================================
+# C10
+# ==========================================================================
+def gen_C10(rng, tier):
+    cases = ["hdrnull"]
+    dist = {"length_mod8": {}, "magic": {}, "cksum": {}, "cksum_triples": 0}
+
+    def region(length, arch, magic_ok, ck, extra=0):
+        n = max(16, length) + extra
+        magic = E.HDR_MAGIC if magic_ok else rng.choice([0, 0xE85250D7, 0xD65052E8, rng.getrandbits(32)])
+        c = E.checksum(magic, arch, length)
+        c = {"ok": c, "plus1": (c + 1) & 0xFFFFFFFF, "minus1": (c - 1) & 0xFFFFFFFF, "zero": 0 if c != 0 else 5}[ck]
+        body = bytearray(E.u32(magic) + E.u32(arch) + E.u32(length) + E.u32(c) + bytes(max(0, n - 16)))
+        if length >= 24 and length % 8 == 0 and length <= n:
+            if length - 24 >= 8:
+                # one information-request-like tag (typ 1, flags 0) filling [16, length-8)
+                body[16:24] = E.u16(1) + E.u16(0) + E.u32(length - 24)
+                for i in range(24, length - 8):
+                    body[i] = (i * 7) % 251 + 1
+            body[length - 8:length] = E.hend_tag()
+        return bytes(body[:n])
+
+    for length in range(0, 73):
+        for arch in (0, 4):
+            for magic_ok in (True, False):
+                for ck in ("ok", "plus1", "minus1", "zero"):
+                    cases.append("hdrwalk " + hx(region(length, arch, magic_ok, ck)))
+                    count(dist["length_mod8"], str(length % 8))
+                    count(dist["magic"], str(magic_ok))
+                    count(dist["cksum"], ck)
+    sizes = [80, 96, 100, 1024, 4096, 65536] + [rng.randrange(72, 1 << 14) for _ in range(30)]
+    if tier == "thorough":
+        sizes += [1 << 20, (1 << 20) + 4] + [rng.randrange(72, 1 << 18) for _ in range(200)]
+    for length in sizes:
+        for ck in ("ok", "plus1"):
+            cases.append("hdrwalk " + hx(region(length, rng.choice([0, 4]), True, ck)))
+            count(dist["length_mod8"], str(length % 8))
+    # checksum law: boundaries and random triples
+    vals = [0, 1, 8, 16, 0x17ADAF29, 0x17ADAF2A, 0x17ADAF2B, 0x17ADAF2C, 0x7FFFFFFF, 0x80000000, 0xFFFFFFFF, 0xFFFFFFFE]
+    for m in (E.HDR_MAGIC, 0, 0xFFFFFFFF, 1):
+        for a in (0, 4):
+            for l in vals:
+                cases.append("cksum %d %d %d" % (m, a, l))
+                dist["cksum_triples"] += 1
+    for _ in range(20000 if tier == "thorough" else 1500):
+        m = rng.choice([E.HDR_MAGIC, rng.getrandbits(32)])
+        cases.append("cksum %d %d %d" % (m, rng.choice([0, 4]), rng.getrandbits(rng.choice([8, 16, 32, 32]))))
+        dist["cksum_triples"] += 1
+    return cases, dict(
+        rule="hdrwalk: all lengths 0..72 x arch {0,4} x magic {ok, wrong} x checksum {ok, +1, -1, zero} (exhaustive), larger "
+             "lengths sampled; null pointer; cksum: boundary and seeded random (magic, arch, length) triples. Only the `load` line "
+             "and `calc_checksum` are compared for this property. distinct_nontrivial = distinct (domain, model transcript) pairs.",
+        dist=dist, exhaustive=True)
+
+
+# ==========================================================================
+# C13
+# ==========================================================================
+def gen_C13(rng, tier):
+    cases = []
+    dist = {"small": 0, "window": 0, "random": 0, "misaligned_buffer": 0}
+    MAG = E.u32(E.HDR_MAGIC)
+
+    def buf(n, positions, stored=None, fill=0):
+        b = bytearray([fill] * n)
+        for i in positions:
+            for k in range(4):
+                if i + k < n:
+                    b[i + k] = MAG[k]
+        if stored is not None and positions:
+            i = positions[0]
+            for k in range(4):
+                if i + 8 + k < n:
+                    b[i + 8 + k] = E.u32(stored)[k]
+        return bytes(b)
+
+    for n in range(0, 41):
+        cases.append("find 0 " + hx(bytes(n)))
+        for i in range(0, max(0, n - 3)):
+            for stored in (0, 16, n - i, n - i + 1, 0xFFFFFFFF):
+                cases.append("find 0 " + hx(buf(n, [i], max(0, stored))))
+                dist["small"] += 1
+        # partial magic at the very end
+        if n >= 2:
+            cases.append("find 0 " + hx(buf(n, [n - 2])))
+    # two occurrences: the first one decides
+    for (i, j) in ((8, 24), (4, 16), (16, 20), (0, 8), (9, 16)):
+        cases.append("find 0 " + hx(buf(48, [j, i], 16)))
+    # around the 8192-byte window
+    lens = list(range(8180, 8211)) + [16384]
+    poss = [8168, 8176, 8180, 8181, 8184, 8185, 8186, 8187, 8188, 8189, 8190, 8191, 8192, 8196, 8200]
+    keep = 1.0 if tier == "thorough" else 0.25
+    for n in lens:
+        cases.append("find 0 " + hx(bytes(n))) if rng.random() < keep else None
+        for i in poss:
+            if i + 4 > n + 2:
+                continue
+            for stored in (16, n - i, n - i + 1):
+                if rng.random() > keep:
+                    continue
+                cases.append("find 0 " + hx(buf(n, [i], stored)))
+                dist["window"] += 1
+    # an occurrence beyond the window must be ignored even when one inside exists later... and vice versa
+    cases.append("find 0 " + hx(buf(16384, [8200, 12000], 16)))
+    cases.append("find 0 " + hx(buf(16384, [8184], 16)))
+    cases.append("find 0 " + hx(buf(16384, [8184], 8200)))
+    cases.append("find 0 " + hx(buf(16384, [8184], 8201)))
+    # random buffers with planted magics
+    for _ in range(600 if tier == "thorough" else 80):
+        n = rng.choice([rng.randrange(0, 200), rng.randrange(8000, 8400), rng.randrange(0, 20000)])
+        b = bytearray(rng.getrandbits(8) for _ in range(n)) if n < 400 else bytearray(n)
+        pos = sorted(rng.randrange(0, max(1, n)) & ~rng.choice([0, 7, 7, 7]) for _ in range(rng.randrange(0, 3)))
+        bb = bytearray(buf(n, [], None))
+        bb[:] = b
+        for i in pos:
+            for k in range(4):
+                if i + k < n:
+                    bb[i + k] = MAG[k]
+        if pos and pos[0] + 12 <= n:
+            bb[pos[0] + 8:pos[0] + 12] = E.u32(rng.choice([16, 24, n - pos[0], n - pos[0] + 8, rng.randrange(0, 64)]))
+        cases.append("find 0 " + hx(bb))
+        dist["random"] += 1
+    for a in range(1, 8):
+        cases.append("find %d %s" % (a, hx(buf(40, [8 - a if a <= 8 else 0], 16))))
+        cases.append("find %d %s" % (a, hx(bytes(0))))
+        dist["misaligned_buffer"] += 2
+    return cases, dict(
+        rule="find: every buffer length 0..40 x every magic position x stored length {0,16,exact,exact+1,2^32-1} (exhaustive); "
+             "lengths 8180..8210 and 16384 x magic positions around 8192 x stored lengths (thorough: all, quick: seeded 25%); several "
+             "occurrences; random buffers with planted magics; misaligned buffers. distinct_nontrivial = distinct (domain, model transcript) pairs.",
+        dist=dist, exhaustive=(tier == "thorough"))
+
+
+def judge_C13(case, ml, il):
+    if len(ml) == 1 and len(il) == 1 and " ERR " in ml[0] and " ERR " in il[0]:
+        return ("harmless", "both report an error; the property leaves the error kind open")
+    return default_judge(case, ml, il)
+
+
+PROPS.update({
+    "C02": dict(gen=gen_C02, configs=["dev", "rel"], judge=judge_projection(["load"]), both_placements=True,
+                assumptions=["the memory made valid for load is max(8, declared total size) bytes (the caller's obligation under load's safety contract)"]),
+    "C03": dict(gen=gen_C03, configs=["dev", "rel"], judge=judge_projection(["load", "tag", "tags", "module", "modules", "new", "clone", "next"]),
+                both_placements=True, assumptions=["an iterator is not used again after one of its calls panicked"]),
+    "C10": dict(gen=gen_C10, configs=["dev", "rel"], judge=judge_projection(["load", "calc_checksum"]), both_placements=True,
+                assumptions=["the architecture word is 0 or 4 (a defined HeaderTagISA value), as the property presupposes"]),
+    "C13": dict(gen=gen_C13, configs=["dev", "rel"], judge=judge_C13, both_placements=True, assumptions=[]),
+})
+NOT_APPLICABLE = {}
